@@ -1,6 +1,8 @@
 #![allow(non_snake_case)]
 #![allow(clippy::too_many_arguments)]
 pub mod bbs;
+pub mod cl;
+pub mod clmath;
 pub mod engine;
 pub mod fuzzdrv;
 pub mod gen;
